@@ -174,8 +174,8 @@ class Interp:
             env.member.add(("noinfA__", p))         # summaries are relative to "the arguments carry no inf"
         fr = Frame(self, fi, chain + (fi.short,))
         fr.block(fi.node.body, env)
-        ret = frozenset().union(*fr.returns) if fr.returns else NONE
-        if fr.falls_off:
+        ret = frozenset().union(*fr.returns) if fr.returns else frozenset()     # (a function that always raises returns nothing at all)
+        if fr.falls_off or (not fr.returns and not fr.escaped):
             ret |= NONE
         self.stack.pop()
         self.memo[key] = (ret, fr.escaped)
